@@ -1210,6 +1210,11 @@ int32_t jls_core_ts_seek(struct jls_core_s * self, uint16_t signal_id, uint8_t l
                 --idx;
                 break;
             } else if (r->entries[idx].timestamp == timestamp) {
+                if (lvl > (level + 1)) {
+                    // entries with the same timestamp may precede this one
+                    // at the end of the previous lower-level chunk
+                    --idx;
+                }
                 break;
             }
         }
